@@ -1,8 +1,124 @@
-/-! Line-protocol driver for component `Locks` (stub; the component owner replaces `run`). -/
+import PSO.Model.Locks
+
+/-! Line-protocol driver for component `locks` (model `PSO.Locks`).
+
+One request per line, blank-separated tokens, one reply line per request:
+
+```
+conf U mono            reset everything; autoUnlockTime U, mono 1 = repaired code / 0 = pinned code   -> ok
+acq l c t              _ReplLockManagerImpl.acquire        -> 1|0 <table>
+pro c t                _ReplLockManagerImpl.prolongate     -> - <table>
+rel l c                _ReplLockManagerImpl.release        -> - <table>
+isacq l c now          _ReplLockManagerImpl.isAcquired     -> 1|0
+dump                                                       -> <table>
+cnew self last         new wrapper state                   -> ok
+ctry l att             first half of tryAcquire            -> <cmds>
+cfin l att acq T|F|N   second half of tryAcquire           -> T|F|N <cmds>
+ctick obj leader n1 n2 n3   one pass of _autoAcquireThread -> <lastProlongateTime> <cmds>
+crel l                 ReplLockManager.release             -> <cmds>
+cisacq l now           ReplLockManager.isAcquired on the current table -> 1|0
+```
+`<table>` = `l:c:t,l:c:t,...` sorted by lock id, `-` when empty; `<cmds>` = `acq:l:c:t` / `pro:c:t` /
+`rel:l:c` joined by `,`, `-` when empty.
+-/
 namespace Driver.Locks
+open PSO.Locks
+
+structure St where
+  cfg : Cfg := { U := 0, mono := true }
+  tbl : Table := Table.empty
+  keys : List Nat := []       -- lock ids ever acquired (the table has finite support inside them)
+  cl : Client := { self := 0 }
+
+def insertKey (ks : List Nat) (k : Nat) : List Nat :=
+  match ks with
+  | [] => [k]
+  | x :: xs => if k < x then k :: x :: xs else if k = x then x :: xs else x :: insertKey xs k
+
+def dump (st : St) : String :=
+  let parts := st.keys.filterMap fun l =>
+    match st.tbl l with
+    | some (c, t) => some s!"{l}:{c}:{t}"
+    | none => none
+  if parts.isEmpty then "-" else ",".intercalate parts
+
+def cmdStr : Cmd → String
+  | .acquire l c t => s!"acq:{l}:{c}:{t}"
+  | .prolongate c t => s!"pro:{c}:{t}"
+  | .release l c => s!"rel:{l}:{c}"
+
+def cmdsStr (cs : List Cmd) : String :=
+  if cs.isEmpty then "-" else ",".intercalate (cs.map cmdStr)
+
+def b01 (b : Bool) : String := if b then "1" else "0"
+
+def resStr : Option Bool → String
+  | some true => "T"
+  | some false => "F"
+  | none => "N"
+
+def parseRes : String → Option (Option Bool)
+  | "T" => some (some true)
+  | "F" => some (some false)
+  | "N" => some none
+  | _ => none
+
+def nats (ws : List String) : Option (List Nat) := ws.mapM String.toNat?
+
+def step (st : St) (line : String) : St × String :=
+  let ws := (line.splitOn " ").filter (· ≠ "")
+  match ws with
+  | [] => (st, "")
+  | op :: args =>
+    match op, nats args with
+    | "conf", some [u, m] => ({ cfg := { U := u, mono := m ≠ 0 } }, "ok")
+    | "acq", some [l, c, t] =>
+      let r := applyRes st.cfg st.tbl (.acquire l c t)
+      let st' := { st with tbl := r.1, keys := insertKey st.keys l }
+      (st', s!"{match r.2 with | some b => b01 b | none => "-"} {dump st'}")
+    | "pro", some [c, t] =>
+      let st' := { st with tbl := apply st.cfg st.tbl (.prolongate c t) }
+      (st', s!"- {dump st'}")
+    | "rel", some [l, c] =>
+      let st' := { st with tbl := apply st.cfg st.tbl (.release l c) }
+      (st', s!"- {dump st'}")
+    | "isacq", some [l, c, now] => (st, b01 (isAcquired st.cfg st.tbl l c now))
+    | "dump", some [] => (st, dump st)
+    | "cnew", some [self, last] => ({ st with cl := { self := self, lastProlong := last } }, "ok")
+    | "ctry", some [l, att] => (st, cmdsStr [st.cl.tryAcquireCmd l att])
+    | "ctick", some [o, ld, n1, n2, n3] =>
+      let r := st.cl.tick st.cfg (o ≠ 0) (ld ≠ 0) n1 n2 n3
+      ({ st with cl := r.1 }, s!"{r.1.lastProlong} {cmdsStr r.2}")
+    | "crel", some [l] => (st, cmdsStr [st.cl.releaseCmd l])
+    | "cisacq", some [l, now] => (st, b01 (st.cl.isAcquired st.cfg st.tbl l now))
+    | "cfin", _ =>
+      match args with
+      | [l, att, acq, r] =>
+        match nats [l, att, acq], parseRes r with
+        | some [l, att, acq], some res =>
+          let out := st.cl.tryAcquireFinish st.cfg l att acq res
+          (st, s!"{resStr out.1} {cmdsStr out.2}")
+        | _, _ => (st, "error bad cfin")
+      | _ => (st, "error bad cfin")
+    | _, _ => (st, s!"error bad request: {line}")
+
+partial def loop (h : IO.FS.Stream) (out : IO.FS.Stream) (st : St) : IO Unit := do
+  let line ← h.getLine
+  if line.isEmpty then
+    return
+  let l := line.trimAscii.toString
+  if l.isEmpty then
+    loop h out st
+  else
+    let (st', reply) := step st l
+    out.putStrLn reply
+    out.flush
+    loop h out st'
 
 def run : IO UInt32 := do
-  IO.eprintln "driver component Locks: not implemented"
-  return 3
+  let stdin ← IO.getStdin
+  let stdout ← IO.getStdout
+  loop stdin stdout {}
+  return 0
 
 end Driver.Locks
